@@ -101,6 +101,22 @@ func Canon(oid uint32, v any) string {
 			parts[i] = strconv.Quote(e)
 		}
 		return "as:" + strings.Join(parts, ",")
+	case []any: // what a type map yields when an array is scanned into an untyped destination
+		parts := make([]string, len(x))
+		for i, e := range x {
+			switch ev := e.(type) {
+			case nil:
+				parts[i] = "NULL"
+			case string:
+				parts[i] = strconv.Quote(ev)
+			default:
+				parts[i] = fmt.Sprint(ev)
+			}
+		}
+		if oid == OIDInt4Array {
+			return "ai:" + strings.Join(parts, ",")
+		}
+		return "as:" + strings.Join(parts, ",")
 	}
 	return fmt.Sprintf("?%T:%v", v, v)
 }
@@ -516,6 +532,25 @@ func encodeBinary(oid uint32, v any) []byte {
 		b := make([]byte, 8)
 		binary.BigEndian.PutUint64(b, uint64(microsSince2000(x)))
 		return b
+	}
+	// one-dimensional arrays: ndim, has-null flag, element oid, (length, lower bound), elements
+	arr := func(elem uint32, n int, el func(i int) []byte) []byte {
+		if n == 0 {
+			return append(append(be32(0), be32(0)...), be32(elem)...)
+		}
+		b := append(append(be32(1), be32(0)...), be32(elem)...)
+		b = append(append(b, be32(uint32(n))...), be32(1)...)
+		for i := 0; i < n; i++ {
+			e := el(i)
+			b = append(append(b, be32(uint32(len(e)))...), e...)
+		}
+		return b
+	}
+	switch x := v.(type) {
+	case []int32:
+		return arr(OIDInt4, len(x), func(i int) []byte { return be32(uint32(x[i])) })
+	case []string:
+		return arr(OIDText, len(x), func(i int) []byte { return []byte(x[i]) })
 	}
 	panic(fmt.Sprintf("encodeBinary: unsupported %T", v))
 }
